@@ -400,7 +400,7 @@ func runProperty(prop, tier, only string, par int, hs []harness, pkgNames map[st
 			writeReplay(path, f, r.job, open)
 			ok := true
 			out := ""
-			if opt(r.job.h, tier, "replay", "native") == "native" {
+			if opt(r.job.h, tier, "replay", "native") == "native" && f.Kind != "cover" {
 				ok, out = replayFile(path, hs, pkgNames)
 				replayed++
 			}
